@@ -1,23 +1,32 @@
 //! C12 — StatusList2021 behaves as an independent-bit vector with one-way revocation.
 //!
-//! (a) E1, complete: every (byte value, neighbour pattern, byte position, bit offset, written value)
-//!     of the per-byte update, on 3-byte lists built through `try_from_encoded_str`.
-//! (b) `new(n)` sizes around the minimum; out-of-range get/set.
+//! (a) E1, complete: every (byte value, neighbour pattern, byte position, bit offset, written value) of the
+//!     per-byte update, on lists of a PERMITTED size (16 KiB, thorough also 16 KiB + 1 and 128 KiB) and on 3-byte
+//!     lists (the latter judged only if `try_from_encoded_str` accepts such a short list).
+//! (a') encode/decode round trips of lists with incompressible deterministic content, byte lengths 0..=40 and
+//!     around the minimum (all base64 padding classes).
+//! (b) `new(n)` sizes around the minimum; out-of-range get/set (both written values, aliasing indices 2^16+k, 2^32+k).
 //! (c) E2 to closure: write histories on real lists (state = the real list, fingerprint = its bytes).
-//! (d) E2 to closure: StatusList2021Credential ops, both purposes, + status evaluation at every state.
+//! (d) E2 to closure: StatusList2021Credential ops on built AND JSON-deserialised credentials (pre-populated lists,
+//!     credential id equal to or different from the subject id, subject id with fragment), both purposes, + status evaluation at every state.
+//!
+//! Oracle discipline: error VARIANTS are judged only where the public documentation names them
+//! (`new` → below minimum is an error; `set_credential_status` → `UnreversibleRevocation`); which URL identifies a list
+//! whose credential id and subject id differ is left open by the statement: executed, recorded, judged only in the
+//! safety direction (a set entry is never reported valid, an unset/foreign entry is never reported revoked/suspended).
 
-use identity_core::common::{Url, Context};
+use identity_core::common::{Context, Url};
 use identity_core::convert::{Base, BaseEncoding};
 use identity_credential::credential::{Credential, CredentialBuilder, Issuer, Status, Subject};
 use identity_credential::revocation::status_list_2021::{
   CredentialStatus, StatusList2021, StatusList2021Credential, StatusList2021CredentialBuilder, StatusList2021CredentialError,
-  StatusList2021Entry, StatusListError, StatusPurpose,
+  StatusList2021Entry, StatusPurpose,
 };
 use identity_credential::validator::{JwtCredentialValidatorUtils, JwtValidationError, StatusCheck};
 use serde::{Deserialize, Serialize};
-use std::collections::BTreeSet;
+use std::collections::{BTreeMap, BTreeSet, HashMap};
 use std::hash::{Hash, Hasher};
-use std::sync::Arc;
+use std::sync::{Arc, Mutex};
 use vx::rayon::prelude::*;
 use vx::sr::Collector;
 use vx::stateright::{Model, Property};
@@ -32,34 +41,58 @@ enum CredOp {
   Update(Vec<(u8, bool)>),
 }
 
+fn three() -> usize {
+  3
+}
+
 #[derive(Serialize, Deserialize, Debug, Clone, PartialEq)]
 enum Case {
-  /// 3-byte list; `pos` is the byte that holds `byte`, the two others hold `nb`; write `value` at bit `offset` of it.
-  ByteUpdate { byte: u8, nb: u8, pos: u8, offset: u8, value: bool },
+  /// list of `size` bytes; `pos` selects the byte that holds `byte` (see `byte_pos`), all others hold `nb`;
+  /// write `value` at bit `offset` of it.
+  ByteUpdate {
+    byte: u8,
+    nb: u8,
+    pos: u8,
+    offset: u8,
+    value: bool,
+    #[serde(default = "three")]
+    size: usize,
+  },
   New { n: usize },
-  /// list of `bytes` bytes, index = len + k (k = usize::MAX means index usize::MAX)
-  OutOfRange { bytes: usize, k: usize, set: bool },
+  /// list of `bytes` bytes, index = len + k (k = usize::MAX means index usize::MAX); op 0 get, 1 set(true), 2 set(false)
+  OutOfRange { bytes: usize, k: usize, op: u8 },
+  /// list of `bytes` bytes of deterministic incompressible filler number `fill`
+  RoundTrip { bytes: usize, fill: u8 },
   /// (c): initial pattern byte, list size in entries, sequence of (index-id, value)
   History { pattern: u8, entries: usize, ops: Vec<(u8, bool)> },
-  /// (d): purpose (0 revocation, 1 suspension), sequence of credential operations
-  Cred { purpose: u8, ops: Vec<CredOp> },
+  /// (d): initial credential configuration, purpose (0 revocation, 1 suspension), sequence of credential operations
+  Cred {
+    #[serde(default)]
+    cfg: u8,
+    purpose: u8,
+    ops: Vec<CredOp>,
+  },
 }
 
 fn gz_b64(bytes: &[u8]) -> String {
   use std::io::Write;
-  let mut e = flate2_enc();
+  let mut e = vx::fx::gz_encoder();
   e.write_all(bytes).unwrap();
   BaseEncoding::encode(&e.finish().unwrap()[..], Base::Base64)
-}
-fn flate2_enc() -> vx::fx::GzEnc {
-  vx::fx::gz_encoder()
 }
 
 fn list_from_bytes(bytes: &[u8]) -> Result<StatusList2021, String> {
   match guard(|| StatusList2021::try_from_encoded_str(&gz_b64(bytes))) {
     Ok(Ok(l)) => Ok(l),
-    Ok(Err(e)) => Err(format!("try_from_encoded_str rejected a well-formed encoding: {e}")),
+    Ok(Err(e)) => Err(format!("try_from_encoded_str rejected a well-formed encoding: {}", short(&e.to_string()))),
     Err(p) => Err(format!("try_from_encoded_str panicked: {}", p.msg)),
+  }
+}
+fn short(s: &str) -> String {
+  if s.len() > 160 {
+    format!("{}…({} bytes)", s.chars().take(120).collect::<String>(), s.len())
+  } else {
+    s.to_string()
   }
 }
 
@@ -74,7 +107,7 @@ fn set_bit(bytes: &mut [u8], i: usize, v: bool) {
   }
 }
 
-/// Compare every entry of `list` with the model bytes; returns the first difference.
+/// Compare the entries `window` of `list` with the model bytes; returns the first difference.
 fn diff(list: &StatusList2021, model: &[u8], window: &[usize]) -> Option<(usize, bool, String)> {
   for &i in window {
     match guard(|| list.get(i)) {
@@ -90,70 +123,132 @@ fn diff(list: &StatusList2021, model: &[u8], window: &[usize]) -> Option<(usize,
   None
 }
 
-const IDX: [&str; 5] = ["0", "1", "7", "8", "len-1"];
+/// History index table; the tiers use prefixes of it.
+const IDX: [&str; 11] = ["0", "1", "7", "8", "len-1", "65535", "65536", "len-8", "9", "len/2-9", "15"];
 fn idx(id: u8, len: usize) -> usize {
   match id {
     0 => 0,
     1 => 1,
     2 => 7,
     3 => 8,
-    _ => len - 1,
+    4 => len - 1,
+    5 => 65535,
+    6 => 65536,
+    7 => len - 8,
+    8 => 9,
+    9 => len / 2 - 9,
+    _ => 15,
   }
 }
 fn window(len: usize) -> Vec<usize> {
-  let mut w: BTreeSet<usize> = (0..24).collect();
-  w.extend((len - 24)..len);
-  w.extend([len / 2, len / 2 + 1]);
+  let mut w: BTreeSet<usize> = (0..24.min(len)).collect();
+  w.extend(len.saturating_sub(24)..len);
+  w.extend((len / 2).saturating_sub(16)..(len / 2 + 8).min(len));
+  w.extend((65528..65552).filter(|i| *i < len));
   w.into_iter().collect()
+}
+
+/// Byte index selected by `pos` in a list of `size` bytes.
+fn byte_pos(pos: u8, size: usize) -> usize {
+  match pos {
+    0 => 0,
+    1 => size / 2,
+    2 => size - 1,
+    3 => 1,
+    4 => size / 2 - 1,
+    _ => size - 2,
+  }
+}
+
+/// Deterministic, poorly compressible filler (a fixed member of the alphabet, not a sample).
+fn filler(len: usize, fill: u8) -> Vec<u8> {
+  let mut x: u32 = 0x9E37_79B9u32.wrapping_mul(fill as u32 + 1);
+  (0..len)
+    .map(|j| {
+      x = x.wrapping_mul(1_664_525).wrapping_add(1_013_904_223);
+      ((x >> 24) as u8) ^ (j as u8).rotate_left(3)
+    })
+    .collect()
 }
 
 fn eval(ctx: &Ctx, case: &Case) {
   ctx.eval1();
   match case {
-    Case::ByteUpdate { byte, nb, pos, offset, value } => {
-      let mut bytes = [*nb; 3];
-      bytes[*pos as usize] = *byte;
+    Case::ByteUpdate { byte, nb, pos, offset, value, size } => {
+      let size = *size;
+      let mut bytes = vec![*nb; size];
+      let b = byte_pos(*pos, size);
+      bytes[b] = *byte;
       let mut list = match list_from_bytes(&bytes) {
         Ok(l) => l,
-        Err(e) => return ctx.violation("StatusList2021::try_from_encoded_str|own-encoding-rejected", &e, case),
+        Err(e) => {
+          if size * 8 < MIN {
+            // a decoder may refuse lists shorter than the documented minimum: not judged
+            ctx.outcome("byte-update:short-list-refused-by-decoder(not judged)");
+            return;
+          }
+          return ctx.violation("StatusList2021::try_from_encoded_str|own-encoding-rejected", &e, case);
+        }
       };
-      if list.len() != 24 {
-        return ctx.violation("StatusList2021::len|not-8-per-byte", &format!("len {} for 3 bytes", list.len()), case);
+      if list.len() != size * 8 {
+        return ctx.violation("StatusList2021::len|not-8-per-byte", &format!("len {} for {size} bytes", list.len()), case);
       }
-      let index = *pos as usize * 8 + *offset as usize;
-      let mut model = bytes;
+      let index = b * 8 + *offset as usize;
+      let mut model = bytes.clone();
       set_bit(&mut model, index, *value);
       match guard(|| list.set(index, *value)) {
         Ok(Ok(())) => {}
         Ok(Err(e)) => return ctx.violation("StatusList2021::set|in-range-rejected", &format!("{e}"), case),
         Err(p) => return ctx.violation(&format!("StatusList2021::set|{}", p.key()), &p.msg, case),
       }
-      let all: Vec<usize> = (0..24).collect();
-      if let Some((i, want, got)) = diff(&list, &model, &all) {
+      let near: Vec<usize> = if size <= 8 {
+        (0..size * 8).collect()
+      } else {
+        let mut w: BTreeSet<usize> = (b.saturating_sub(2) * 8..(b + 3).min(size) * 8).collect();
+        w.extend(0..16);
+        w.extend(size * 8 - 16..size * 8);
+        w.into_iter().collect()
+      };
+      let mut reported = false;
+      if let Some((i, want, got)) = diff(&list, &model, &near) {
         let kind = if i == index { "target-entry-wrong" } else { "other-entry-changed" };
         ctx.violation(
           &format!("StatusList2021::set|value={value}|{kind}"),
-          &format!("bytes {bytes:02x?} set({index},{value}): entry {i} should read {want}, reads {got}"),
+          &format!("{size}-byte list, byte {b} = {byte:02x}, others {nb:02x}; set({index},{value}): entry {i} should read {want}, reads {got}"),
           case,
         );
+        reported = true;
+      }
+      if size > 8 && !reported {
+        // every other entry of the list, by whole-list equality with the list decoded from the model bytes
+        match list_from_bytes(&model) {
+          Ok(expected) if expected == list => {}
+          Ok(_) => ctx.violation(
+            &format!("StatusList2021::set|value={value}|other-entry-changed"),
+            &format!("{size}-byte list, set({index},{value}): the list differs from the model outside the entries next to the written one"),
+            case,
+          ),
+          Err(e) => ctx.violation("StatusList2021::try_from_encoded_str|own-encoding-rejected", &e, case),
+        }
       }
       // encoded form decodes to the identical list
       match guard(|| StatusList2021::try_from_encoded_str(&list.clone().into_encoded_str())) {
         Ok(Ok(back)) if back == list => {}
-        other => ctx.violation("StatusList2021::encode-decode|not-identity", &format!("{other:?}"), case),
+        other => ctx.violation("StatusList2021::encode-decode|not-identity", &short(&format!("{:?}", other.map(|r| r.map(|l| l.len())))), case),
       }
       ctx.outcome(if bit(&bytes, index) == *value { "byte-update:no-op-write" } else { "byte-update:flip" });
-      ctx.distinct(&(1u8, byte, nb, pos, offset, value));
+      ctx.distinct(&(1u8, byte, nb, pos, offset, value, size));
     }
     Case::New { n } => {
       let r = guard(|| StatusList2021::new(*n));
       match r {
         Err(p) => ctx.violation(&format!("StatusList2021::new|{}", p.key()), &p.msg, case),
         Ok(Err(e)) => {
-          if *n >= MIN || e != StatusListError::InvalidListSize {
+          // below the documented minimum ANY error is fine
+          if *n >= MIN {
             ctx.violation("StatusList2021::new|permitted-size-rejected", &format!("{e}"), case)
           }
-          ctx.outcome("new:rejected");
+          ctx.outcome(&format!("new:rejected:{}", <&'static str>::from(&e)));
         }
         Ok(Ok(l)) => {
           if *n < MIN {
@@ -163,9 +258,24 @@ fn eval(ctx: &Ctx, case: &Case) {
           if l.len() != want {
             ctx.violation("StatusList2021::len|not-rounded-up-to-byte", &format!("n={n} len={} want {want}", l.len()), case)
           }
-          for i in [0, n - 1, l.len() - 1] {
+          let mut probes: Vec<usize> = vec![0, n.saturating_sub(1), l.len().saturating_sub(1), l.len() / 2];
+          probes.retain(|i| *i < l.len());
+          for i in probes {
             if !matches!(guard(|| l.get(i)), Ok(Ok(false))) {
               ctx.violation("StatusList2021::new|not-zero-filled", &format!("entry {i}"), case)
+            }
+          }
+          if l.len() == want && want > 0 {
+            // all entries: whole-list equality with the list decoded from `want/8` zero bytes
+            match list_from_bytes(&vec![0u8; want / 8]) {
+              Ok(z) if z == l => {}
+              Ok(z) if z.len() != want => ctx.violation("StatusList2021::len|not-8-per-byte", &format!("len {} for {} bytes", z.len(), want / 8), case),
+              Ok(_) => ctx.violation("StatusList2021::new|not-zero-filled", "differs from the decoded all-zero list", case),
+              Err(e) => {
+                if want >= MIN {
+                  ctx.violation("StatusList2021::try_from_encoded_str|own-encoding-rejected", &e, case)
+                }
+              }
             }
           }
           ctx.outcome("new:accepted");
@@ -173,37 +283,77 @@ fn eval(ctx: &Ctx, case: &Case) {
       }
       ctx.distinct(&(2u8, n));
     }
-    Case::OutOfRange { bytes, k, set } => {
+    Case::OutOfRange { bytes, k, op } => {
       let data = vec![0xA5u8; *bytes];
       let mut list = match list_from_bytes(&data) {
         Ok(l) => l,
-        Err(e) => return ctx.violation("StatusList2021::try_from_encoded_str|own-encoding-rejected", &e, case),
+        Err(e) => {
+          if bytes * 8 < MIN {
+            ctx.outcome("out-of-range:short-list-refused-by-decoder(not judged)");
+            return;
+          }
+          return ctx.violation("StatusList2021::try_from_encoded_str|own-encoding-rejected", &e, case);
+        }
       };
       let index = if *k == usize::MAX { usize::MAX } else { bytes * 8 + k };
       let before = list.clone();
-      let r = if *set {
-        guard(|| list.set(index, true)).map(|r| r.map(|_| false))
-      } else {
-        guard(|| list.get(index))
+      let r = match op {
+        0 => guard(|| list.get(index)).map(|r| r.map(|_| ())),
+        1 => guard(|| list.set(index, true)),
+        _ => guard(|| list.set(index, false)),
       };
-      let op = if *set { "set" } else { "get" };
+      let opn = if *op == 0 { "get" } else { "set" };
       match r {
-        Err(p) => ctx.violation(&format!("StatusList2021::{op}|out-of-range|{}", p.key()), &format!("index {index} of {}: {}", before.len(), p.msg), case),
-        Ok(Ok(_)) => ctx.violation(&format!("StatusList2021::{op}|out-of-range|accepted"), &format!("index {index} of {}", before.len()), case),
-        Ok(Err(StatusListError::IndexOutOfBounds)) => {
+        Err(p) => ctx.violation(&format!("StatusList2021::{opn}|out-of-range|{}", p.key()), &format!("index {index} of {}: {}", before.len(), p.msg), case),
+        Ok(Ok(_)) => ctx.violation(&format!("StatusList2021::{opn}|out-of-range|accepted"), &format!("index {index} of {}", before.len()), case),
+        Ok(Err(e)) => {
+          // the statement demands "an error", not a particular variant
           if list != before {
-            ctx.violation(&format!("StatusList2021::{op}|out-of-range|list-changed"), "", case)
+            ctx.violation(&format!("StatusList2021::{opn}|out-of-range|list-changed"), "", case)
+          }
+          ctx.outcome(&format!("out-of-range:{}", <&'static str>::from(&e)));
+        }
+      }
+      ctx.distinct(&(3u8, bytes, k, op));
+    }
+    Case::RoundTrip { bytes, fill } => {
+      let data = filler(*bytes, *fill);
+      let list = match list_from_bytes(&data) {
+        Ok(l) => l,
+        Err(e) => {
+          if bytes * 8 < MIN {
+            ctx.outcome("round-trip:short-list-refused-by-decoder(not judged)");
+            return;
+          }
+          return ctx.violation("StatusList2021::try_from_encoded_str|own-encoding-rejected", &e, case);
+        }
+      };
+      if list.len() != bytes * 8 {
+        return ctx.violation("StatusList2021::len|not-8-per-byte", &format!("len {} for {bytes} bytes", list.len()), case);
+      }
+      let all: Vec<usize> = (0..bytes * 8).collect();
+      if let Some((i, want, got)) = diff(&list, &data, &all) {
+        ctx.violation("StatusList2021::get|decoded-entry-wrong", &format!("{bytes}-byte filler {fill}: entry {i} should read {want}, reads {got}"), case);
+      }
+      let enc = match guard(|| list.clone().into_encoded_str()) {
+        Ok(s) => s,
+        Err(p) => return ctx.violation(&format!("StatusList2021::into_encoded_str|{}", p.key()), &p.msg, case),
+      };
+      match guard(|| StatusList2021::try_from_encoded_str(&enc)) {
+        Ok(Ok(back)) if back == list => {
+          if let Some((i, want, got)) = diff(&back, &data, &all) {
+            ctx.violation("StatusList2021::encode-decode|not-identity", &format!("entry {i} should read {want}, reads {got}"), case);
           }
         }
-        Ok(Err(e)) => ctx.violation(&format!("StatusList2021::{op}|out-of-range|wrong-error"), &format!("{e}"), case),
+        other => ctx.violation("StatusList2021::encode-decode|not-identity", &short(&format!("{:?}", other.map(|r| r.map(|l| l.len())))), case),
       }
-      ctx.outcome("out-of-range");
-      ctx.distinct(&(3u8, bytes, k, set));
+      ctx.outcome(&format!("round-trip:b64-length%4={}", enc.trim_end_matches('=').len() % 4));
+      ctx.distinct(&(6u8, bytes, fill));
     }
     Case::History { pattern, entries, ops } => {
       // replay the whole history from the initial list, oracle at every step
       let col = Collector::new();
-      let m = HistModel { pattern: *pattern, entries: *entries, col: col.clone() };
+      let m = HistModel { pattern: *pattern, entries: *entries, nidx: IDX.len() as u8, col: col.clone() };
       let mut inits = m.init_states();
       if inits.is_empty() {
         return col.drain_into(ctx, "history-replay");
@@ -217,16 +367,18 @@ fn eval(ctx: &Ctx, case: &Case) {
       }
       col.drain_into(ctx, "history-replay");
     }
-    Case::Cred { purpose, ops } => {
+    Case::Cred { cfg, purpose, ops } => {
       let col = Collector::new();
-      let m = CredModel { col: col.clone(), batch_len: 0 };
-      let mut st = m.init_states().remove(*purpose as usize);
-      for a in ops {
-        match m.next_state(&st, a.clone()) {
-          Some(n) => st = n,
-          None => break,
+      let m = CredModel::new(col.clone(), *cfg, 0, CRED_IDX.len());
+      if let Some(mut st) = m.init_state(*purpose) {
+        for a in ops {
+          match m.next_state(&st, a.clone()) {
+            Some(n) => st = n,
+            None => break,
+          }
         }
       }
+      ctx.outcomes_merge(&m.outcomes.lock().unwrap());
       col.drain_into(ctx, "cred-replay");
     }
   }
@@ -253,6 +405,8 @@ impl Hash for HistState {
 struct HistModel {
   pattern: u8,
   entries: usize,
+  /// number of indices of `IDX` that are written
+  nidx: u8,
   col: Arc<Collector>,
 }
 impl Model for HistModel {
@@ -285,7 +439,7 @@ impl Model for HistModel {
     vec![HistState { list, model, hist: vec![] }]
   }
   fn actions(&self, _s: &HistState, out: &mut Vec<(u8, bool)>) {
-    for id in 0..5u8 {
+    for id in 0..self.nidx {
       for v in [false, true] {
         out.push((id, v));
       }
@@ -321,15 +475,19 @@ impl Model for HistModel {
     // whole-list equality with a list decoded from the model bytes, and encode/decode identity
     match list_from_bytes(&n.model) {
       Ok(expected) if expected == n.list => {}
-      _ => {
+      Ok(_) => {
         self.col.violation("StatusList2021::history|whole-list-differs-from-model", &format!("{:?}", n.hist), &case);
+        return None;
+      }
+      Err(e) => {
+        self.col.violation("StatusList2021::try_from_encoded_str|own-encoding-rejected", &e, &case);
         return None;
       }
     }
     match guard(|| StatusList2021::try_from_encoded_str(&n.list.clone().into_encoded_str())) {
       Ok(Ok(back)) if back == n.list => {}
       other => {
-        self.col.violation("StatusList2021::encode-decode|not-identity", &format!("{:?}", other.map(|r| r.map(|l| l.len()))), &case);
+        self.col.violation("StatusList2021::encode-decode|not-identity", &short(&format!("{:?}", other.map(|r| r.map(|l| l.len())))), &case);
         return None;
       }
     }
@@ -343,14 +501,93 @@ impl Model for HistModel {
 }
 
 // ------------------------------------------------------------------ (d) credential level
-const CRED_IDX: [usize; 4] = [0, 1, 2, 8];
+/// Credential-level index table (ids 0..CRED_IDX.len() are in range; the tiers use prefixes), followed by two
+/// out-of-range ids (`OOB_LEN`, `OOB_HUGE`).
+const CRED_IDX: [&str; 6] = ["0", "1", "8", "len-1", "2", "7"];
+const OOB_LEN: u8 = 100;
+const OOB_HUGE: u8 = 101;
+fn cidx(id: u8, len: usize) -> usize {
+  match id {
+    0 => 0,
+    1 => 1,
+    2 => 8,
+    3 => len - 1,
+    4 => 2,
+    5 => 7,
+    OOB_LEN => len,
+    _ => usize::MAX - 3,
+  }
+}
 const LIST_URL: &str = "https://example.com/status/3";
+const LIST_URL_FRAGMENT: &str = "https://example.com/status/3#list";
+const OTHER_CRED_URL: &str = "https://example.com/credentials/status/3";
+const FOREIGN_URL: &str = "https://example.com/status/4";
+const ENTRY_ID: &str = "https://example.edu/credentials/3732#status";
+
+/// How a `statusListCredential` URL relates to the list under test.
+#[derive(Clone, Copy, PartialEq, Eq, Debug)]
+enum RefClass {
+  /// credential id = subject id = this URL (no fragment): the statement's unambiguous family, judged exactly
+  Core,
+  /// one of the list's two differing ids: which one identifies the list is left open — judged in the safety direction only
+  Ambiguous,
+  /// some other list
+  Foreign,
+}
+
+/// The four initial credential configurations.
+struct Cfg {
+  name: &'static str,
+  /// built through `StatusList2021CredentialBuilder` (else deserialised from JSON text)
+  built: bool,
+  cred_id: &'static str,
+  subject_id: &'static str,
+  /// list size in bytes
+  size: usize,
+  /// pre-populated (entries 1, 7, 9, 8*(size/2)+3 and len-2 set) or all-zero
+  populated: bool,
+}
+const CFGS: [Cfg; 4] = [
+  Cfg { name: "built,id=subject-id", built: true, cred_id: LIST_URL, subject_id: LIST_URL, size: MIN / 8, populated: false },
+  Cfg { name: "built,subject-id-with-fragment", built: true, cred_id: LIST_URL, subject_id: LIST_URL_FRAGMENT, size: MIN / 8, populated: false },
+  Cfg { name: "json,id=subject-id,populated", built: false, cred_id: LIST_URL, subject_id: LIST_URL, size: MIN / 8, populated: true },
+  Cfg { name: "json,w3c-example-ids,populated,16KiB+1", built: false, cred_id: OTHER_CRED_URL, subject_id: LIST_URL_FRAGMENT, size: MIN / 8 + 1, populated: true },
+];
+impl Cfg {
+  fn initial_bytes(&self) -> Vec<u8> {
+    let mut b = vec![0u8; self.size];
+    if self.populated {
+      for i in [1, 7, 9, 8 * (self.size / 2) + 3, self.size * 8 - 2] {
+        set_bit(&mut b, i, true);
+      }
+    }
+    b
+  }
+  fn refs(&self) -> Vec<(&'static str, RefClass)> {
+    let mut r = if self.cred_id == self.subject_id {
+      vec![(self.cred_id, RefClass::Core)]
+    } else {
+      vec![(self.cred_id, RefClass::Ambiguous), (self.subject_id, RefClass::Ambiguous)]
+    };
+    r.push((FOREIGN_URL, RefClass::Foreign));
+    r
+  }
+  /// class of the entry that the list's own `set_credential_status` attaches
+  fn self_class(&self) -> RefClass {
+    if self.cred_id == self.subject_id {
+      RefClass::Core
+    } else {
+      RefClass::Ambiguous
+    }
+  }
+}
 
 #[derive(Clone, Debug)]
 struct CredState {
   cred: StatusList2021Credential,
   purpose: u8,
-  model: BTreeSet<usize>,
+  /// model: the bytes of the list
+  model: Vec<u8>,
   hist: Vec<CredOp>,
   fp: String,
 }
@@ -368,6 +605,16 @@ impl Hash for CredState {
 fn cred_fp(c: &StatusList2021Credential) -> String {
   // canonical form of the REAL credential: its JSON
   serde_json::to_string(c).unwrap_or_else(|e| format!("unserialisable: {e}"))
+}
+/// The list carried by a serialised credential (`credentialSubject.encodedList`, the layout is the W3C one).
+fn list_of_json(fp: &str) -> Result<StatusList2021, String> {
+  let v: serde_json::Value = serde_json::from_str(fp).map_err(|e| format!("credential JSON: {e}"))?;
+  let enc = v["credentialSubject"]["encodedList"].as_str().ok_or("no credentialSubject.encodedList string")?.to_owned();
+  match guard(|| StatusList2021::try_from_encoded_str(&enc)) {
+    Ok(Ok(l)) => Ok(l),
+    Ok(Err(e)) => Err(format!("encodedList does not decode: {}", short(&e.to_string()))),
+    Err(p) => Err(format!("decoding encodedList panicked: {}", p.msg)),
+  }
 }
 fn purpose_of(p: u8) -> StatusPurpose {
   if p == 0 {
@@ -388,21 +635,192 @@ fn subject_credential(status: Option<Status>) -> Credential {
   }
   b.build().expect("credential")
 }
+/// `credentialStatus` for an entry; `numeric` spells `statusListIndex` as a JSON number instead of a string.
+fn status_of(entry: &StatusList2021Entry, numeric: bool) -> Status {
+  if !numeric {
+    return entry.clone().into();
+  }
+  let mut v = serde_json::to_value(entry).unwrap();
+  v["statusListIndex"] = json!(entry.index());
+  serde_json::from_value(v).unwrap()
+}
+fn verdict(res: &Result<(), JwtValidationError>) -> &'static str {
+  match res {
+    Ok(()) => "Ok",
+    Err(JwtValidationError::Revoked) => "Revoked",
+    Err(JwtValidationError::Suspended) => "Suspended",
+    Err(JwtValidationError::InvalidStatus(_)) => "InvalidStatus",
+    Err(_) => "other-error",
+  }
+}
+
+/// Result of evaluating one (real credential, model) state; computed once per distinct state, reported on every
+/// transition that reaches the state (so that counts and the smallest witness do not depend on worker timing).
+#[derive(Default)]
+struct Evald {
+  viol: Vec<(String, String)>,
+  outcomes: BTreeMap<String, u64>,
+  evals: u64,
+}
+impl Evald {
+  fn v(&mut self, key: String, what: String) {
+    if !self.viol.iter().any(|(k, _)| *k == key) {
+      self.viol.push((key, what));
+    }
+  }
+  fn o(&mut self, label: &str) {
+    *self.outcomes.entry(label.to_string()).or_insert(0) += 1;
+  }
+}
+
 struct CredModel {
   col: Arc<Collector>,
+  cfg: u8,
   /// longest ordered batch of writes inside one `update` call
   batch_len: usize,
+  /// number of in-range indices of `CRED_IDX` that are written
+  nidx: usize,
+  cache: Mutex<HashMap<(String, Vec<u8>), Arc<Evald>>>,
+  outcomes: Arc<Mutex<BTreeMap<String, u64>>>,
 }
 impl CredModel {
-  /// Status evaluation at a state: for every index of the universe (+ neighbours + out of range) and
-  /// every (id match, purpose match) combination.
-  fn check_status(&self, s: &CredState, case: &Case) -> bool {
-    let mut ok = true;
-    let len = MIN;
-    for i in [0usize, 1, 2, 3, 7, 8, 9, len - 1, len, usize::MAX / 2] {
+  fn new(col: Arc<Collector>, cfg: u8, batch_len: usize, nidx: usize) -> CredModel {
+    CredModel { col, cfg, batch_len, nidx, cache: Mutex::new(HashMap::new()), outcomes: Arc::new(Mutex::new(BTreeMap::new())) }
+  }
+  fn cfg(&self) -> &'static Cfg {
+    &CFGS[self.cfg as usize]
+  }
+  fn init_state(&self, p: u8) -> Option<CredState> {
+    let cfg = self.cfg();
+    let bytes = cfg.initial_bytes();
+    let case = Case::Cred { cfg: self.cfg, purpose: p, ops: vec![] };
+    let cred = if cfg.built {
+      // the minimum-size configurations start from `default()`, like the library's examples
+      let list = if cfg.size * 8 == MIN { StatusList2021::default() } else { StatusList2021::new(cfg.size * 8).expect("permitted size") };
+      StatusList2021CredentialBuilder::new(list)
+        .purpose(purpose_of(p))
+        .subject_id(Url::parse(cfg.subject_id).unwrap())
+        .issuer(Issuer::Url(Url::parse("did:example:1234").unwrap()))
+        .context(Context::Url(Url::parse("https://w3id.org/vc/status-list/2021/v1").unwrap()))
+        .build()
+        .expect("status list credential")
+    } else {
+      let text = json!({
+        "@context": ["https://www.w3.org/2018/credentials/v1", "https://w3id.org/vc/status-list/2021/v1"],
+        "id": cfg.cred_id,
+        "type": ["VerifiableCredential", "StatusList2021Credential"],
+        "issuer": "did:example:12345",
+        "issuanceDate": "2021-04-05T14:27:40Z",
+        "credentialSubject": {
+          "id": cfg.subject_id,
+          "type": "StatusList2021",
+          "statusPurpose": if p == 0 { "revocation" } else { "suspension" },
+          "encodedList": gz_b64(&bytes),
+        }
+      })
+      .to_string();
+      match guard(|| serde_json::from_str::<StatusList2021Credential>(&text)) {
+        Ok(Ok(c)) => c,
+        other => {
+          self.col.violation(
+            "StatusList2021Credential::deserialize|w3c-shaped-credential-rejected",
+            &short(&format!("{:?}", other.map(|r| r.map(|_| ()).map_err(|e| e.to_string())))),
+            &case,
+          );
+          return None;
+        }
+      }
+    };
+    if cred.purpose() != purpose_of(p) {
+      self.col.violation("StatusList2021Credential::purpose|not-the-stated-purpose", &format!("{:?}", cred.purpose()), &case);
+      return None;
+    }
+    let fp = cred_fp(&cred);
+    let st = CredState { cred, purpose: p, model: bytes, hist: vec![], fp };
+    // the initial state is judged like every other state
+    if !self.judge_state(&st, &case) {
+      return None;
+    }
+    Some(st)
+  }
+
+  /// One status evaluation; `class`/`purpose_match` describe the credential's entry, `i` its index.
+  #[allow(clippy::too_many_arguments)]
+  fn judge_status(&self, ev: &mut Evald, s: &CredState, c: &Credential, mode: StatusCheck, class: RefClass, purpose_match: bool, i: usize, what: &str) {
+    let len = s.model.len() * 8;
+    ev.evals += 1;
+    let res = match guard(|| JwtCredentialValidatorUtils::check_status_with_status_list_2021(c, &s.cred, mode)) {
+      Err(p) => {
+        ev.v(format!("check_status_with_status_list_2021|{}", p.key()), format!("index {i}: {}", p.msg));
+        ev.o("status:panic");
+        return;
+      }
+      Ok(res) => res,
+    };
+    let got = verdict(&res);
+    if mode == StatusCheck::SkipAll {
+      // documented: "Skip all status checks"
+      if got != "Ok" {
+        ev.v("check_status_with_status_list_2021|SkipAll-not-skipped".into(), format!("{what}: {got}"));
+      }
+      ev.o("status:skipped(SkipAll)");
+      return;
+    }
+    let in_range = i < len;
+    let set = in_range && bit(&s.model, i);
+    let own = if s.purpose == 0 { "Revoked" } else { "Suspended" };
+    let applicable = class != RefClass::Foreign && purpose_match && in_range;
+    // exact expectation on the family the statement describes; otherwise only the two safety directions
+    let expect: Option<&str> = if class == RefClass::Core && applicable { Some(if set { own } else { "Ok" }) } else { None };
+    let bad = match expect {
+      Some(e) => (got != e).then(|| format!("expected-{e}|got-{got}")),
+      None => {
+        if got == "Revoked" || got == "Suspended" {
+          // reported revoked/suspended although the credential's entry is not set in this list / not of its purpose
+          (!(applicable && set && got == own)).then(|| format!("expected-not-revoked-or-suspended|got-{got}"))
+        } else if got == "Ok" && applicable && set {
+          // a set entry of a list that the status references by one of the list's own ids is reported valid
+          Some(format!("expected-{own}|got-Ok"))
+        } else {
+          None
+        }
+      }
+    };
+    if let Some(b) = bad {
+      ev.v(format!("check_status_with_status_list_2021|{b}"), format!("{what} index {i} class {class:?} purpose_match={purpose_match} mode {mode:?} after {:?}", s.hist));
+    }
+    let fam = match (class, applicable) {
+      (RefClass::Core, true) => "",
+      (RefClass::Core, false) => "(core id, other purpose or out of range: not judged beyond safety)",
+      (RefClass::Ambiguous, _) => "(credential id != subject id: not judged beyond safety)",
+      (RefClass::Foreign, _) => "(foreign list: not judged beyond safety)",
+    };
+    ev.o(&format!("status:{got}{fam}"));
+  }
+
+  /// Status evaluation at a state: whole-list comparison, `entry(i)` and the validator for every index of the
+  /// universe (+ neighbours + out of range) and every status shape.
+  fn evaluate(&self, s: &CredState) -> Evald {
+    let mut ev = Evald::default();
+    let cfg = self.cfg();
+    let len = s.model.len() * 8;
+    // whole list carried by the credential == model
+    match (list_of_json(&s.fp), list_from_bytes(&s.model)) {
+      (Ok(real), Ok(want)) => {
+        if real != want {
+          let w = window(len);
+          let d = diff(&real, &s.model, &w);
+          ev.v("StatusList2021Credential::list|differs-from-model".into(), format!("first difference in the window: {d:?}; real len {} after {:?}", real.len(), s.hist));
+        }
+      }
+      (Err(e), _) => ev.v("StatusList2021Credential::list|encoded-list-unreadable".into(), e),
+      (_, Err(e)) => ev.v("StatusList2021::try_from_encoded_str|own-encoding-rejected".into(), e),
+    }
+    for i in [0usize, 1, 2, 3, 7, 8, 9, len - 2, len - 1, len, usize::MAX / 2] {
       // entry(i)
-      let want_set = s.model.contains(&i);
+      let want_set = i < len && bit(&s.model, i);
       let e = guard(|| s.cred.entry(i));
+      ev.evals += 1;
       let want = if i >= len {
         None
       } else if want_set {
@@ -411,114 +829,112 @@ impl CredModel {
         Some(CredentialStatus::Valid)
       };
       match (&e, want) {
-        (Err(p), _) => {
-          self.col.violation(&format!("StatusList2021Credential::entry|{}", p.key()), &format!("index {i}: {}", p.msg), case);
-          ok = false;
-        }
+        (Err(p), _) => ev.v(format!("StatusList2021Credential::entry|{}", p.key()), format!("index {i}: {}", p.msg)),
         (Ok(Ok(got)), Some(w)) if *got == w => {}
         (Ok(Err(_)), None) => {}
-        (Ok(got), w) => {
-          self.col.violation(
-            &format!("StatusList2021Credential::entry|{}", if i >= len { "out-of-range-accepted" } else { "disagrees-with-model" }),
-            &format!("index {i}: got {got:?}, model {w:?} after {:?}", s.hist),
-            case,
-          );
-          ok = false;
-        }
+        (Ok(got), w) => ev.v(
+          format!("StatusList2021Credential::entry|{}", if i >= len { "out-of-range-accepted" } else { "disagrees-with-model" }),
+          format!("index {i}: got {got:?}, model {w:?} after {:?}", s.hist),
+        ),
       }
-      for id_match in [true, false] {
+      for (url, class) in cfg.refs() {
+        let url = Url::parse(url).unwrap();
         for purpose_match in [true, false] {
-          let p = if purpose_match { s.purpose } else { 1 - s.purpose };
-          let url = if id_match { LIST_URL } else { "https://example.com/status/4" };
-          let entry = StatusList2021Entry::new(Url::parse(url).unwrap(), purpose_of(p), i, None);
-          let c = subject_credential(Some(entry.into()));
-          self.col.eval1();
-          let r = guard(|| JwtCredentialValidatorUtils::check_status_with_status_list_2021(&c, &s.cred, StatusCheck::Strict));
-          let label;
-          match r {
-            Err(p) => {
-              self.col.violation(&format!("check_status_with_status_list_2021|{}", p.key()), &format!("index {i}: {}", p.msg), case);
-              ok = false;
-              label = "status:panic";
+          let p = purpose_of(if purpose_match { s.purpose } else { 1 - s.purpose });
+          // entry id: defaulted / explicit / (adversarial) the list's own URL
+          for entry_id in [None, Some(ENTRY_ID), Some(cfg.cred_id)] {
+            let entry = StatusList2021Entry::new(url.clone(), p, i, entry_id.map(|u| Url::parse(u).unwrap()));
+            let c = subject_credential(Some(status_of(&entry, false)));
+            self.judge_status(&mut ev, s, &c, StatusCheck::Strict, class, purpose_match, i, "entry");
+            if entry_id.is_none() {
+              // documented: SkipUnsupported validates supported status types, SkipAll skips
+              self.judge_status(&mut ev, s, &c, StatusCheck::SkipUnsupported, class, purpose_match, i, "entry(SkipUnsupported)");
+              self.judge_status(&mut ev, s, &c, StatusCheck::SkipAll, class, purpose_match, i, "entry(SkipAll)");
+              // numeric statusListIndex: whether it is accepted is open → safety directions only
+              let cn = subject_credential(Some(status_of(&entry, true)));
+              let class_n = if class == RefClass::Core { RefClass::Ambiguous } else { class };
+              self.judge_status(&mut ev, s, &cn, StatusCheck::Strict, class_n, purpose_match, i, "entry(numeric index)");
             }
-            Ok(res) => {
-              let expect: &str = if !id_match || !purpose_match || i >= len {
-                "InvalidStatus"
-              } else if want_set {
-                if s.purpose == 0 {
-                  "Revoked"
-                } else {
-                  "Suspended"
-                }
-              } else {
-                "Ok"
-              };
-              let got: &str = match &res {
-                Ok(()) => "Ok",
-                Err(JwtValidationError::Revoked) => "Revoked",
-                Err(JwtValidationError::Suspended) => "Suspended",
-                Err(JwtValidationError::InvalidStatus(_)) => "InvalidStatus",
-                Err(_) => "other-error",
-              };
-              if got != expect {
-                // safety direction: a set entry of a matching list must never be reported Ok
-                self.col.violation(
-                  &format!("check_status_with_status_list_2021|expected-{expect}|got-{got}"),
-                  &format!("index {i} id_match={id_match} purpose_match={purpose_match} after {:?}", s.hist),
-                  case,
-                );
-                ok = false;
-              }
-              label = match got {
-                "Ok" => "status:valid",
-                "Revoked" => "status:revoked",
-                "Suspended" => "status:suspended",
-                _ => "status:invalid-status",
-              };
-            }
-          }
-          self.col.outcome(label);
-          // relaxed modes: SkipAll accepts everything
-          if !matches!(guard(|| JwtCredentialValidatorUtils::check_status_with_status_list_2021(&c, &s.cred, StatusCheck::SkipAll)), Ok(Ok(()))) {
-            self.col.violation("check_status_with_status_list_2021|SkipAll-not-skipped", "", case);
-            ok = false;
           }
         }
       }
     }
-    // a credential without status is valid
+    // a credential without status has no entry: it is never reported revoked or suspended
     let c = subject_credential(None);
-    if !matches!(guard(|| JwtCredentialValidatorUtils::check_status_with_status_list_2021(&c, &s.cred, StatusCheck::Strict)), Ok(Ok(()))) {
-      self.col.violation("check_status_with_status_list_2021|no-status-rejected", "", case);
-      ok = false;
+    ev.evals += 1;
+    match guard(|| JwtCredentialValidatorUtils::check_status_with_status_list_2021(&c, &s.cred, StatusCheck::Strict)) {
+      Err(p) => ev.v(format!("check_status_with_status_list_2021|{}", p.key()), format!("no status: {}", p.msg)),
+      Ok(res) => {
+        let got = verdict(&res);
+        if got == "Revoked" || got == "Suspended" {
+          ev.v(format!("check_status_with_status_list_2021|no-status|got-{got}"), String::new());
+        }
+        ev.o(&format!("status:no-credentialStatus:{got}"));
+      }
     }
-    ok
+    // serde round trip of the credential preserves purpose and list
+    match guard(|| serde_json::from_str::<StatusList2021Credential>(&s.fp)) {
+      Ok(Ok(back)) => {
+        let same_list = match (list_of_json(&cred_fp(&back)), list_of_json(&s.fp)) {
+          (Ok(a), Ok(b)) => a == b,
+          _ => false,
+        };
+        if back.purpose() != s.cred.purpose() || !same_list {
+          ev.v("StatusList2021Credential::serde|list-or-purpose-changed".into(), format!("after {:?}", s.hist));
+        }
+      }
+      other => ev.v("StatusList2021Credential::serde|own-json-rejected".into(), short(&format!("{:?}", other.map(|r| r.map(|_| ()).map_err(|e| e.to_string()))))),
+    }
+    ev
+  }
+
+  /// Evaluate (cached per distinct (real JSON, model) pair) and report for this transition. Returns false if the state violates.
+  fn judge_state(&self, s: &CredState, case: &Case) -> bool {
+    let key = (s.fp.clone(), s.model.clone());
+    let cached = self.cache.lock().unwrap().get(&key).cloned();
+    let ev = match cached {
+      Some(ev) => ev,
+      None => {
+        let ev = Arc::new(self.evaluate(s));
+        self.cache.lock().unwrap().insert(key, ev.clone());
+        ev
+      }
+    };
+    for (k, w) in &ev.viol {
+      self.col.violation(k, w, case);
+    }
+    {
+      let mut o = self.outcomes.lock().unwrap();
+      for (k, n) in &ev.outcomes {
+        *o.entry(k.clone()).or_insert(0) += *n;
+      }
+    }
+    self.col.oracle_evals.fetch_add(ev.evals, std::sync::atomic::Ordering::Relaxed);
+    ev.viol.is_empty()
+  }
+  fn outcome(&self, label: &str) {
+    *self.outcomes.lock().unwrap().entry(label.to_string()).or_insert(0) += 1;
   }
 }
 impl Model for CredModel {
   type State = CredState;
   type Action = CredOp;
   fn init_states(&self) -> Vec<CredState> {
-    (0..2u8)
-      .map(|p| {
-        let cred = StatusList2021CredentialBuilder::new(StatusList2021::default())
-          .purpose(purpose_of(p))
-          .subject_id(Url::parse(LIST_URL).unwrap())
-          .issuer(Issuer::Url(Url::parse("did:example:1234").unwrap()))
-          .context(Context::Url(Url::parse("https://w3id.org/vc/status-list/2021/v1").unwrap()))
-          .build()
-          .expect("status list credential");
-        let fp = cred_fp(&cred);
-        CredState { cred, purpose: p, model: BTreeSet::new(), hist: vec![], fp }
-      })
-      .collect()
+    (0..2u8).filter_map(|p| self.init_state(p)).collect()
   }
   fn actions(&self, _s: &CredState, out: &mut Vec<CredOp>) {
-    let writes: Vec<(u8, bool)> = (0..CRED_IDX.len() as u8).flat_map(|id| [(id, true), (id, false)]).collect();
+    let writes: Vec<(u8, bool)> = (0..self.nidx as u8).flat_map(|id| [(id, true), (id, false)]).collect();
     for w in &writes {
       out.push(CredOp::Set(w.0, w.1));
     }
-    // update(|l| ..) with EVERY ordered batch of 1..=batch_len writes (duplicates and no-op writes included)
+    // out-of-range indices
+    for id in [OOB_LEN, OOB_HUGE] {
+      for v in [true, false] {
+        out.push(CredOp::Set(id, v));
+      }
+    }
+    // update(|l| ..) with the empty batch and EVERY ordered batch of 1..=batch_len writes (duplicates and no-op writes included)
+    out.push(CredOp::Update(vec![]));
     let mut batches: Vec<Vec<(u8, bool)>> = vec![vec![]];
     for _ in 0..self.batch_len {
       let mut next = Vec::new();
@@ -534,43 +950,56 @@ impl Model for CredModel {
       }
       batches = next;
     }
+    // batches that run into an out-of-range index, alone and after each in-range write
+    if self.batch_len >= 1 {
+      for (id, v) in [(OOB_LEN, true), (OOB_LEN, false), (OOB_HUGE, true)] {
+        out.push(CredOp::Update(vec![(id, v)]));
+        if self.batch_len >= 2 {
+          for w in &writes {
+            out.push(CredOp::Update(vec![*w, (id, v)]));
+          }
+        }
+      }
+    }
   }
   fn next_state(&self, s: &CredState, op: CredOp) -> Option<CredState> {
     self.col.eval1();
+    let len = s.model.len() * 8;
     let mut n = s.clone();
     n.hist.push(op.clone());
-    let case = Case::Cred { purpose: s.purpose, ops: n.hist.clone() };
-    // reference model: writes are applied in order; the first refused write (clearing a set revocation entry)
-    // aborts the whole operation and nothing is written back
+    let case = Case::Cred { cfg: self.cfg, purpose: s.purpose, ops: n.hist.clone() };
+    // reference model: writes are applied in order; the first write that must fail (clearing a set revocation entry,
+    // out-of-range index) makes the whole operation fail. What a failed operation leaves behind of the writes BEFORE the
+    // failing one is not stated: both "nothing" and "the prefix" are accepted and followed.
     let writes: Vec<(u8, bool)> = match &op {
       CredOp::Set(id, v) => vec![(*id, *v)],
       CredOp::Update(b) => b.clone(),
     };
     let mut model = s.model.clone();
-    let mut refuse = false;
+    let mut fail: Option<&'static str> = None;
     for (id, v) in &writes {
-      let i = CRED_IDX[*id as usize];
-      if s.purpose == 0 && !*v && model.contains(&i) {
-        refuse = true;
+      let i = cidx(*id, len);
+      if i >= len {
+        fail = Some("out-of-range");
         break;
       }
-      if *v {
-        model.insert(i);
-      } else {
-        model.remove(&i);
+      if s.purpose == 0 && !*v && bit(&model, i) {
+        fail = Some("unreversible");
+        break;
       }
+      set_bit(&mut model, i, *v);
     }
     let mut target = subject_credential(None);
     let (r, opname) = match &op {
       CredOp::Set(id, v) => {
-        let i = CRED_IDX[*id as usize];
+        let i = cidx(*id, len);
         (guard(|| n.cred.set_credential_status(&mut target, i, *v)).map(|r| r.map(Some)), "set_credential_status")
       }
       CredOp::Update(b) => (
         guard(|| {
           n.cred.update(|l| {
             for (id, v) in b {
-              l.set_entry(CRED_IDX[*id as usize], *v)?;
+              l.set_entry(cidx(*id, len), *v)?;
             }
             Ok(())
           })
@@ -579,56 +1008,86 @@ impl Model for CredModel {
         "update(set_entry)",
       ),
     };
+    n.fp = cred_fp(&n.cred);
     match r {
       Err(p) => {
         self.col.violation(&format!("StatusList2021Credential::{opname}|{}", p.key()), &p.msg, &case);
         return None;
       }
       Ok(Err(e)) => {
-        if !refuse || e != StatusList2021CredentialError::UnreversibleRevocation {
+        let Some(why) = fail else {
           self.col.violation(&format!("StatusList2021Credential::{opname}|permitted-op-rejected"), &format!("{e} after {:?}", n.hist), &case);
           return None;
-        }
-        if cred_fp(&n.cred) != s.fp {
-          self.col.violation(&format!("StatusList2021Credential::{opname}|refused-op-changed-state"), &format!("{:?}", n.hist), &case);
+        };
+        // the error variant is documented for set_credential_status only
+        if why == "unreversible" && matches!(op, CredOp::Set(..)) && e != StatusList2021CredentialError::UnreversibleRevocation {
+          self.col.violation("StatusList2021Credential::set_credential_status|un-revocation-not-reported-as-UnreversibleRevocation", &format!("{e}"), &case);
           return None;
         }
-        self.col.outcome("cred:unreversible-revocation-refused");
-      }
-      Ok(Ok(entry)) => {
-        if refuse {
-          self.col.violation(
-            &format!("StatusList2021Credential::{opname}|revocation-cleared"),
-            &format!("a set revocation entry was cleared and the operation returned Ok after {:?}", n.hist),
-            &case,
-          );
-          return None;
-        }
-        n.model = model;
-        if let (Some(e), CredOp::Set(id, _)) = (entry, &op) {
-          let i = CRED_IDX[*id as usize];
-          let want: Status = StatusList2021Entry::new(Url::parse(LIST_URL).unwrap(), purpose_of(s.purpose), i, None).into();
-          if e.index() != i || e.purpose() != purpose_of(s.purpose) || target.credential_status.as_ref() != Some(&want) {
-            self.col.violation("StatusList2021Credential::set_credential_status|wrong-entry-attached", &format!("{e:?}"), &case);
+        // what is left behind: nothing, or the writes before the failing one
+        let real = list_of_json(&n.fp);
+        let before = list_from_bytes(&s.model);
+        let prefix = list_from_bytes(&model);
+        match (&real, &before, &prefix) {
+          (Ok(r), Ok(b), _) if r == b => n.model = s.model.clone(),
+          (Ok(r), _, Ok(p)) if r == p => {
+            n.model = model;
+            self.outcome("cred:failed-op-kept-its-prefix(not judged)");
+          }
+          _ => {
+            self.col.violation(&format!("StatusList2021Credential::{opname}|refused-op-changed-state"), &format!("{:?}", n.hist), &case);
             return None;
           }
         }
-        self.col.outcome(if n.model == s.model { "cred:no-change" } else { "cred:changed" });
+        self.outcome(if why == "unreversible" { "cred:unreversible-revocation-refused" } else { "cred:out-of-range-refused" });
+      }
+      Ok(Ok(entry)) => {
+        match fail {
+          Some("unreversible") => {
+            self.col.violation(
+              &format!("StatusList2021Credential::{opname}|revocation-cleared"),
+              &format!("a set revocation entry was cleared and the operation returned Ok after {:?}", n.hist),
+              &case,
+            );
+            return None;
+          }
+          Some(_) => {
+            self.col.violation(&format!("StatusList2021Credential::{opname}|out-of-range-accepted"), &format!("{:?}", n.hist), &case);
+            return None;
+          }
+          None => {}
+        }
+        n.model = model;
+        if let (Some(e), CredOp::Set(id, _)) = (entry, &op) {
+          let i = cidx(*id, len);
+          // documented: the credential's status is mapped to the index-th entry of THIS list (index and purpose; which
+          // URL and which entry id are used is not judged)
+          let attached = target.credential_status.as_ref().and_then(|st| StatusList2021Entry::try_from(st).ok());
+          let ok = |x: &StatusList2021Entry| x.index() == i && x.purpose() == purpose_of(s.purpose);
+          if !ok(&e) || !attached.as_ref().map(ok).unwrap_or(false) {
+            self.col.violation("StatusList2021Credential::set_credential_status|wrong-entry-attached", &short(&format!("returned {e:?}, attached {attached:?}")), &case);
+            return None;
+          }
+          // end to end: the credential just mapped to entry i is reported according to entry i
+          let mut ev = Evald::default();
+          self.judge_status(&mut ev, &n, &target, StatusCheck::Strict, self.cfg().self_class(), true, i, "credential from set_credential_status");
+          for (k, w) in &ev.viol {
+            self.col.violation(k, w, &case);
+          }
+          for (k, _) in &ev.outcomes {
+            self.outcome(&format!("self-attached-{k}"));
+          }
+          if !ev.viol.is_empty() {
+            return None;
+          }
+        }
+        self.outcome(if n.model == s.model { "cred:no-change" } else { "cred:changed" });
       }
     }
-    n.fp = cred_fp(&n.cred);
     // every entry must read the last value written (this is what catches a dropped or partially applied batch);
     // a divergence between real state and model cuts the search below this state
-    if !self.check_status(&n, &case) {
+    if !self.judge_state(&n, &case) {
       return None;
-    }
-    // serde round trip of the credential is the identity
-    match guard(|| serde_json::from_str::<StatusList2021Credential>(&n.fp)) {
-      Ok(Ok(back)) if back == n.cred => {}
-      other => {
-        self.col.violation("StatusList2021Credential::serde|not-identity", &format!("{:?}", other.map(|r| r.is_ok())), &case);
-        return None;
-      }
     }
     self.col.sample(&case);
     Some(n)
@@ -638,52 +1097,83 @@ impl Model for CredModel {
   }
 }
 
-fn generate(ctx: &Ctx) {
-  ctx.rule("(a) full product byte(256) x neighbour{00,ff,5a} x position(3) x offset(8) x value(2); (b) sizes around MIN and out-of-range indices; (c),(d) stateright BFS to closure over write histories on the real list / real credential. distinct_nontrivial = distinct (case kind, parameters) tuples of (a),(b) plus unique states of (c),(d)");
-  ctx.assume("flate2 (gzip) and multibase are trusted to be lossless codecs; inputs for (a) are built with the harness's own gzip + the library's base64 encoder");
-  // (a)
-  let mut cases = Vec::new();
-  for byte in 0..=255u8 {
-    for nb in [0x00u8, 0xff, 0x5a] {
-      for pos in 0..3u8 {
-        for offset in 0..8u8 {
-          for value in [false, true] {
-            cases.push(Case::ByteUpdate { byte, nb, pos, offset, value });
-          }
-        }
-      }
-    }
-  }
-  ctx.sample("byte-update", &cases[12345]);
+fn run_e1(ctx: &Ctx, part: &str, cases: &[Case], detail: serde_json::Value) {
   cases.par_iter().for_each(|c| eval(ctx, c));
   ctx.add_states(cases.len() as u64);
   ctx.add_transitions(cases.len() as u64);
   ctx.add_traces(cases.len() as u64);
-  ctx.part("byte-update", json!({"engine":"E1 full product","cases": cases.len()}));
+  ctx.part(part, detail);
+}
+
+fn generate(ctx: &Ctx) {
+  ctx.rule("(a) full product byte(256) x neighbour{00,ff,5a} x position x offset(8) x value(2) per list size; (a') round trips of filler lists; (b) sizes around MIN and out-of-range indices; (c),(d) stateright BFS to closure over write histories on the real list / real credential (4 initial configurations x 2 purposes). distinct_nontrivial = distinct (case kind, parameters) tuples of (a),(a'),(b) plus unique states of (c),(d)");
+  ctx.assume("flate2 (gzip) and multibase are trusted to be lossless codecs; input lists are built with the harness's own gzip (default level) + the library's base64 encoder");
+  // (a)
+  let product = |size: usize, nbs: &[u8], npos: u8| {
+    let mut cases = Vec::new();
+    for byte in 0..=255u8 {
+      for &nb in nbs {
+        for pos in 0..npos {
+          for offset in 0..8u8 {
+            for value in [false, true] {
+              cases.push(Case::ByteUpdate { byte, nb, pos, offset, value, size });
+            }
+          }
+        }
+      }
+    }
+    cases
+  };
+  let all_nb = [0x00u8, 0xff, 0x5a];
+  let mut plan: Vec<(usize, &[u8], u8)> = vec![(3, &all_nb, 3), (MIN / 8, &all_nb, ctx.by_tier(3, 6))];
+  if ctx.thorough() {
+    plan.push((MIN / 8 + 1, &all_nb, 6));
+    plan.push((1 << 17, &all_nb[2..], 6));
+  }
+  for (size, nbs, npos) in plan {
+    let cases = product(size, nbs, npos);
+    ctx.sample("byte-update", &cases[12345 % cases.len()]);
+    run_e1(ctx, &format!("byte-update {size}-byte lists"), &cases, json!({"engine":"E1 full product","cases": cases.len(), "positions": npos, "neighbour_patterns": nbs.len()}));
+  }
+  // (a')
+  let mut rt = Vec::new();
+  let mut lens: Vec<usize> = (0..=40).collect();
+  lens.extend(MIN / 8..=MIN / 8 + 8);
+  lens.push(MIN / 4);
+  if ctx.thorough() {
+    lens.extend(41..=300);
+    lens.extend([1 << 17, (1 << 17) + 1, (1 << 17) + 2]);
+  }
+  for bytes in lens {
+    for fill in 0..ctx.by_tier(3u8, 6) {
+      rt.push(Case::RoundTrip { bytes, fill });
+    }
+  }
+  ctx.sample("round-trip", &rt[rt.len() - 1]);
+  run_e1(ctx, "round-trip", &rt, json!({"cases": rt.len()}));
   // (b)
   let mut b = Vec::new();
-  for n in [0usize, 1, 8, MIN - 9, MIN - 8, MIN - 1, MIN, MIN + 1, MIN + 2, MIN + 3, MIN + 4, MIN + 5, MIN + 6, MIN + 7, MIN + 8, MIN + 9, 2 * MIN] {
+  for n in [0usize, 1, 8, MIN - 9, MIN - 8, MIN - 1, MIN, MIN + 1, MIN + 2, MIN + 3, MIN + 4, MIN + 5, MIN + 6, MIN + 7, MIN + 8, MIN + 9, 2 * MIN, (1 << 20) + 1] {
     b.push(Case::New { n });
   }
-  for bytes in [1usize, 3, MIN / 8] {
-    for k in [0usize, 1, 7, 8, 1 << 20, usize::MAX] {
-      for set in [false, true] {
-        b.push(Case::OutOfRange { bytes, k, set });
+  let first_oor = b.len();
+  for bytes in [1usize, 3, MIN / 8, MIN / 8 + 1] {
+    let len = bytes * 8;
+    for k in [0usize, 1, 7, 8, 1 << 20, (1 << 16) + 5 - len.min(1 << 16), (1 << 32) + 5 - len, (1 << 32) - len, usize::MAX - 7 - len, usize::MAX] {
+      for op in 0..3u8 {
+        b.push(Case::OutOfRange { bytes, k, op });
       }
     }
   }
   ctx.sample("sizes", &b[0]);
-  ctx.sample("out-of-range", &b[20]);
-  b.par_iter().for_each(|c| eval(ctx, c));
-  ctx.add_states(b.len() as u64);
-  ctx.add_transitions(b.len() as u64);
-  ctx.add_traces(b.len() as u64);
-  ctx.part("sizes+out-of-range", json!({"cases": b.len()}));
+  ctx.sample("out-of-range", &b[first_oor + 100]);
+  run_e1(ctx, "sizes+out-of-range", &b, json!({"cases": b.len()}));
   // (c)
-  let sizes: Vec<usize> = if ctx.quick() { vec![MIN] } else { vec![MIN, MIN + 8, 1 << 20] };
-  for entries in sizes {
+  let plan: Vec<(usize, u8)> = if ctx.quick() { vec![(MIN, 8)] } else { vec![(MIN, 11), (MIN + 8, 10), (1 << 20, 8)] };
+  for (entries, nidx) in plan {
+    ctx.bound(&format!("history_indices entries={entries}"), &IDX[..nidx as usize]);
     for pattern in [0x00u8, 0xff, 0xa5] {
-      let st = vx::sr::run(ctx, &format!("history entries={entries} pattern={pattern:#04x}"), None, |col| HistModel { pattern, entries, col });
+      let st = vx::sr::run(ctx, &format!("history entries={entries} pattern={pattern:#04x}"), None, |col| HistModel { pattern, entries, nidx, col });
       for i in 0..st.unique {
         ctx.distinct(&(4u8, entries, pattern, i));
       }
@@ -691,14 +1181,29 @@ fn generate(ctx: &Ctx) {
   }
   // (d)
   let batch_len = ctx.by_tier(2, 3);
+  let nidx = 5;
   ctx.bound("update_batch_len", batch_len);
-  let st = vx::sr::run(ctx, "credential ops", None, |col| CredModel { col, batch_len });
-  for i in 0..st.unique {
-    ctx.distinct(&(5u8, i));
+  ctx.bound("credential_indices", &CRED_IDX[..nidx]);
+  ctx.bound("credential_out_of_range_indices", ["len", "usize::MAX-3"]);
+  let mut plan: Vec<(u8, usize, usize)> = (0..CFGS.len() as u8).map(|cfg| (cfg, nidx, batch_len)).collect();
+  if ctx.thorough() {
+    // the whole index table with shorter batches on the first configuration
+    plan.push((0, CRED_IDX.len(), 2));
+  }
+  for (cfg, nidx, batch_len) in plan {
+    let maps: Mutex<Vec<Arc<Mutex<BTreeMap<String, u64>>>>> = Mutex::new(Vec::new());
+    let st = vx::sr::run(ctx, &format!("credential ops [{}] indices={nidx} batch<={batch_len}", CFGS[cfg as usize].name), None, |col| {
+      let m = CredModel::new(col, cfg, batch_len, nidx);
+      maps.lock().unwrap().push(m.outcomes.clone());
+      m
+    });
+    // outcome histogram of the first (16-thread) run only, like the collector
+    ctx.outcomes_merge(&maps.lock().unwrap()[0].lock().unwrap());
+    for i in 0..st.unique {
+      ctx.distinct(&(5u8, cfg, nidx, i));
+    }
   }
   ctx.bound("byte_update", "complete");
-  ctx.bound("history_indices", IDX);
-  ctx.bound("credential_indices", CRED_IDX);
 }
 
 fn main() {
